@@ -99,6 +99,12 @@ def gen_C01(g, tier):
             lines.append(f"{c} show p {r.choice(ENTRIES_TEXT + ENTRIES_BYTES + ENTRIES_SYMS)} {hx(t)}")
             pos = r.randrange(n)
             lines.append(f"{c} show p vec {hx(t[:pos] + [r.choice(bad_bytes(g, c, False))] + t[pos:])}")
+        # very long texts: beyond any fixed-size internal block (thousands of symbols), one with a refused byte near the end
+        for n in ([2100] if tier == "quick" else [1400, 2100, 4100, 8200]):
+            t = g.text(c, n)
+            lines.append(f"{c} show p {r.choice(ENTRIES_TEXT)} {hx(t)}")
+            lines.append(f"{c} show p collect {hx(t)}")
+            lines.append(f"{c} show p bytes {hx(t[:n - 5] + [r.choice(bad_bytes(g, c, False))] + t[n - 5:])}")
         # every single byte as a one-character text
         for b in range(256):
             lines.append(f"{c} show p bytes {b:02x}")
@@ -533,6 +539,12 @@ def gen_C06(g, tier):
             lines.append(f"{c} show append {base} {arg}")
             lines.append(f"{c} show insert {n - 1} {base} {arg}")
             lines.append(f"{c} show insert {n // 2} {base} {arg}")
+            for k in ((1, 16, 17) if tier == "quick" else (1, 2, 4, 8, 15, 16, 17, 31, 32, 33)):
+                for d in (0, 1, 33, 63):
+                    tail = (64 * k + d + w - 1) // w      # symbols after the insertion point: just over k words
+                    if 0 < tail < n:
+                        lines.append(f"{c} show insert {n - tail} {base} {offset_slice(g, c, g.text(c, r.choice([1, 3, 40])), r.randrange(0, 5))}")
+                        lines.append(f"{c} show remove r {n - tail} {n - tail + 1} {base}")
             lines.append(f"{c} show remove r {n - 70} {n - 1} {base}")
             lines.append(f"{c} show remove rt 0 {n - 3} {base}")
             lines.append(f"{c} show trunc {n - 1} {base}")
@@ -663,6 +675,11 @@ def gen_C11(g, tier):
             lines.append(f"{c} intoiterv p str {hx(t)}")
             lines.append(f"{c} chunksvec 2 p str {hx(t)}")
             lines.append(f"{c} windows 0 p str {hx(t)}")
+            # widths far beyond the length (up to usize::MAX): no item, no overflow
+            for big_w in ((1 << 64) - 1, 1 << 63, (1 << 62) + 1, (1 << 61) + 3):
+                lines.append(f"{c} windows {big_w} p str {hx(t)}")
+                lines.append(f"{c} chunks {big_w} p str {hx(t)}")
+                lines.append(f"{c} adapt windows {big_w} count 0 p str {hx(t)}")
         # long sequences: the last items of every iterator, jumps into the last word, wide windows
         for n in ([1100] if tier == "quick" else [1100, 4099]):
             t = g.text(c, n)
@@ -1396,6 +1413,16 @@ def gen_C19(g, tier):
             pre = [r.choice(bads) for _ in range(r.choice([0, 0, 1, 3, 9]))]
             post = [r.choice(bads) for _ in range(r.choice([0, 0, 1, 4, 11]))]
             lines.append(f"{c} show trim {hx(pre + core + post)}")
+        # long inputs (over 1024 bytes) with junk at both ends, at one end, nowhere, and with a refused byte deep inside
+        for n in ([1100] if tier == "quick" else [1023, 1024, 1100, 4200]):
+            core = g.text(c, n)
+            j1 = [r.choice(bads) for _ in range(r.choice([1, 3, 7]))]
+            j2 = [r.choice(bads) for _ in range(r.choice([1, 2, 9]))]
+            lines.append(f"{c} show trim {hx(j1 + core + j2)}")
+            lines.append(f"{c} show trim {hx(j1 + core)}")
+            lines.append(f"{c} show trim {hx(core + j2)}")
+            lines.append(f"{c} show trim {hx(core)}")
+            lines.append(f"{c} show trim {hx(j1 + core[:n - 3] + [r.choice(bads)] + core[n - 3:] + j2)}")
         lines.append(f"{c} show trim -")
         lines.append(f"{c} show trim {hx([r.choice(bads) for _ in range(5)])}")
         for b in range(256):
